@@ -19,6 +19,27 @@ Proof.
     destruct (rx_run need nenv st1 ps1) as [e1 s1]. destruct (rx_run need nenv s1 ps2) as [e2 s2]. reflexivity.
 Qed.
 
+(* a header-only packet (an empty packet: length = header size) anywhere in the packet sequence — between two
+   responses or between two packets of one — is reported by its own marker and changes nothing else: the events of
+   all other packets and the final state are those of the sequence without it *)
+Lemma rx_run_header_only : forall ps1 p ps2 st, p_len p = c_hdr_size ->
+  rx_run need nenv st (ps1 ++ p :: ps2) =
+  let '(e1, s1) := rx_run need nenv st ps1 in let '(e2, s2) := rx_run need nenv s1 ps2 in
+  (e1 ++ [EvHeaderOnly (p_hdr p)] :: e2, s2).
+Proof.
+  intros ps1 p ps2 st Hp. rewrite rx_run_app.
+  destruct (rx_run need nenv st ps1) as [e1 s1]. cbn [rx_run].
+  unfold rx_packet at 1. rewrite Hp, Z.eqb_refl.
+  destruct (rx_run need nenv s1 ps2) as [e2 s2]. reflexivity.
+Qed.
+Lemma rx_run_header_only_state : forall ps1 p ps2 st, p_len p = c_hdr_size ->
+  snd (rx_run need nenv st (ps1 ++ p :: ps2)) = snd (rx_run need nenv st (ps1 ++ ps2)).
+Proof.
+  intros ps1 p ps2 st Hp. rewrite rx_run_header_only by exact Hp. rewrite rx_run_app.
+  destruct (rx_run need nenv st ps1) as [e1 s1]. destruct (rx_run need nenv s1 ps2) as [e2 s2]. reflexivity.
+Qed.
+
+
 (* what the consumer gets after the first packets is a prefix of what it gets after all of them *)
 Theorem rx_prefix : forall ps1 ps2 st, exists more,
   fst (rx_run need nenv st (ps1 ++ ps2)) = fst (rx_run need nenv st ps1) ++ more.
